@@ -78,6 +78,13 @@ func main() {
 		}
 		os.Exit(1)
 	}
+	if name := os.Getenv("SIPVET_DUMP"); name != "" {
+		// debugging aid: the IR of one function as the rules see it (after inlining and clean-up)
+		if fn := w.Fn(name); fn != nil {
+			fn.WriteTo(os.Stdout)
+		}
+		return
+	}
 	if os.Getenv("SIPVET_LIST_CAPTURES") != "" {
 		caps, n := loopCaptures(w)
 		fmt.Println("closures in loops:", n)
